@@ -98,10 +98,36 @@ def specParseLeaf (sch : Schema) (orc : Oracle) (p : Path) (f : Field) (values :
       | .ok k, .ok v => some (.ok [(p, .map [(k, v)])])
     | _ => some (.error .invalidArgument)
 
+/-- the message containing the leaf a key resolves to -/
+def parentMd (sch : Schema) (strict : Bool) : MsgDesc → List Bytes → Option MsgDesc
+  | _, [] => none
+  | md, [_] => some md
+  | md, name :: rest =>
+    match (if strict then md.byName name else md.lookup name) with
+    | none => none
+    | some f =>
+      if !isSingularMessage f then none
+      else match subMsgDesc sch f with
+        | none => none
+        | some sub => parentMd sch strict sub rest
+
+/-- only the leaf may be a member of a oneof (real, or the synthetic one of a proto3 `optional` field) -/
+def leafOneofOK (fs : List Field) : Bool := fs.dropLast.all (fun f => f.oneof.isNone)
+
+/-- the oneof group of a resolved leaf: (path of the containing message, oneof index, names of all members) -/
+def groupOf (p : Path) (fs : List Field) (md : Option MsgDesc) : Option (Path × Nat × List Name) :=
+  match fs.getLast?, md with
+  | some f, some md =>
+    match f.oneof with
+    | some o => some (p.dropLast, o, (md.fields.filter (fun g => g.oneof == some o)).map (·.name))
+    | none => none
+  | _, _ => none
+
 /-- one source of field values, resolved: the fields it covers (`at`) and what it contributes -/
 structure Source where
   at_ : Path
   result : Except Err Msg
+  group : Option (Path × Nat × List Name) := none
 
 inductive BodyT where
   | noBody
@@ -157,22 +183,27 @@ def expect (sch : Schema) (orc : Oracle) (root : MsgDesc) (bd : Binding) (dec : 
       | some _, .err => some (.error .invalidArgument)
       | some _, .eof => some (.error .eof)
       | some _, .ok es => some (.ok (leaves (es.map (fun e => (parent ++ e.1, e.2)))))
+    -- every path the body populated, empty sub-messages included (what `WhichOneof` sees)
+    -- (the sub-messages on the way to the body field are materialised by `traverseFieldPath` whatever the body is)
+    let bodyAll : List Path := (List.range parent.length).map (fun i => parent.take (i + 1)) ++ (match tgt, dec with
+      | some _, .ok es => es.map (fun e => parent ++ e.1)
+      | _, _ => [])
     match bodyDone with
     | none => none
     | some (.error e) => some (.error e)
     | some (.ok bodyLeaves) =>
       -- path variables: proto-named, oneof-free, singular leaves; unknown top-level names are ignored
       let pps := rq.pathParams.filter (fun kv => !firstUnknown false root (splitDot kv.1))
-      let ppRes := pps.map (fun kv => (resolveGo sch true root (splitDot kv.1), kv.2))
+      let ppRes := pps.map (fun kv => (resolveGo sch true root (splitDot kv.1), kv.2, parentMd sch true root (splitDot kv.1)))
       if ppRes.any (fun r => match r.1 with
           | none => true
-          | some (_, fs) => !oneofSafe fs || (match fs.getLast? with
+          | some (_, fs) => !leafOneofOK fs || (match fs.getLast? with
               | some f => !(f.card == Card.single)
               | none => true)) then none
       else
         let ppSrc : List Source := ppRes.filterMap (fun r => match r.1 with
           | some (p, fs) => match fs.getLast? with
-            | some f => (specParseLeaf sch orc p f [r.2]).map (fun res => ⟨p, res⟩)
+            | some f => (specParseLeaf sch orc p f [r.2.1]).map (fun res => ⟨p, res, groupOf p fs r.2.2⟩)
             | none => none
           | none => none)
         if ppSrc.length != ppRes.length then none
@@ -181,17 +212,17 @@ def expect (sch : Schema) (orc : Oracle) (root : MsgDesc) (bd : Binding) (dec : 
           let seqs := filterSeqs bd rq.pathParams
           let qs := if bd.bodyPath = wildcard then [] else
             (rq.query.map (fun kv => queryKey kv.1 kv.2)).filter (fun kv => !firstUnknown false root (splitDot kv.1))
-          let qRes := qs.map (fun kv => (resolveGo sch false root (splitDot kv.1), kv.2))
+          let qRes := qs.map (fun kv => (resolveGo sch false root (splitDot kv.1), kv.2, parentMd sch false root (splitDot kv.1)))
           if qRes.any (fun r => match r.1 with
               | none => true
-              | some (_, fs) => !oneofSafe fs) then none
+              | some (_, fs) => !leafOneofOK fs) then none
           else
             let qLive := qRes.filter (fun r => match r.1 with
               | some (p, _) => !hasCommonPrefix seqs p
               | none => false)
             let qSrc : List Source := qLive.filterMap (fun r => match r.1 with
               | some (p, fs) => match fs.getLast? with
-                | some f => (specParseLeaf sch orc p f r.2).map (fun res => ⟨p, res⟩)
+                | some f => (specParseLeaf sch orc p f r.2.1).map (fun res => ⟨p, res, groupOf p fs r.2.2⟩)
                 | none => none
               | none => none)
             if qSrc.length != qLive.length then none
@@ -202,6 +233,22 @@ def expect (sch : Schema) (orc : Oracle) (root : MsgDesc) (bd : Binding) (dec : 
                 | none => false
               if !pairwiseUnrelated paths || bodyRel then none
               else
+                -- oneofs (only leaves can be members here). As coded, `populateFieldValueFromPath` refuses a member
+                -- of a oneof one of whose members is already populated ("field already set for oneof"):
+                --  * two keys into one oneof ⇒ InvalidArgument whatever the order (the second one is refused);
+                --  * a key into a oneof a DIFFERENT member of which the body populated ⇒ InvalidArgument;
+                --  * a path variable for the very member the body populated: the per-field rule says the path
+                --    variable is written over the body (the code refuses: known finding D4c).
+                let allSrc := ppSrc ++ qSrc
+                let groups := allSrc.filterMap (fun s => s.group.map (fun g => (g.1, g.2.1)))
+                let rec dup : List (Path × Nat) → Bool
+                  | [] => false
+                  | g :: rest => rest.any (fun h => h.1 == g.1 && h.2 == g.2) || dup rest
+                let siblingInBody := allSrc.any (fun s => match s.group with
+                  | some (par, _, members) =>
+                    members.any (fun g => !(par ++ [g] == s.at_) && bodyAll.any (fun b => b == par ++ [g]))
+                  | none => false)
+                if dup groups || siblingInBody then some (.error .invalidArgument) else
                 match firstError (ppSrc.map (·.result) ++ qSrc.map (·.result)) with
                 | some e => some (.error e)
                 | none =>
@@ -217,7 +264,7 @@ def pathVarOverBodyOptional (sch : Schema) (root : MsgDesc) (bd : Binding) (dec 
       | _ => []
     rq.pathParams.any (fun kv => match resolveGo sch true root (splitDot kv.1) with
       | some (p, fs) => (match fs.getLast? with
-          | some f => isSynthetic f
+          | some f => f.oneof.isSome
           | none => false) && es.any (fun e => parent ++ e.1 == p)
       | none => false)
   | _ => false
